@@ -275,6 +275,96 @@ func census(repo string, pkgs []*packages.Package) {
 		return panics[i].Func < panics[j].Func
 	})
 	facts["census_block_panics"] = panics
+
+	// in-memory state that outlives a transaction: package-level variables, and struct fields that are maps, channels or
+	// sync primitives, in the consensus packages.  A memoisation added to a keeper, a precompile or a key type shows up here.
+	var pkgVars, memFields []Site
+	qual := func(other *types.Package) string { return other.Name() }
+	for _, p := range pkgs {
+		for _, file := range p.Syntax {
+			fname := p.Fset.Position(file.Pos()).Filename
+			r := rel(repo, fname)
+			if isTest(fname) || strings.HasSuffix(fname, ".pb.go") || strings.HasSuffix(fname, ".pb.gw.go") || strings.Contains(r, "verifhook") ||
+				strings.Contains(r, "/tests/") || strings.Contains(r, "test_helpers") {
+				continue
+			}
+			for _, d := range file.Decls {
+				gd, ok := d.(*ast.GenDecl)
+				if !ok {
+					continue
+				}
+				for _, sp := range gd.Specs {
+					switch x := sp.(type) {
+					case *ast.ValueSpec:
+						if gd.Tok.String() != "var" {
+							continue
+						}
+						for _, nm := range x.Names {
+							if nm.Name == "_" {
+								continue
+							}
+							ty := "?"
+							if obj := p.TypesInfo.Defs[nm]; obj != nil {
+								ty = types.TypeString(obj.Type(), qual)
+							}
+							if strings.HasSuffix(ty, "errors.Error") || ty == "error" {
+								continue // registered error values
+							}
+							pkgVars = append(pkgVars, Site{r, 0, nm.Name, ty})
+						}
+					case *ast.TypeSpec:
+						st, ok := x.Type.(*ast.StructType)
+						if !ok {
+							continue
+						}
+						for _, f := range st.Fields.List {
+							tv, ok := p.TypesInfo.Types[f.Type]
+							if !ok {
+								continue
+							}
+							ts := types.TypeString(tv.Type, qual)
+							mutable := false
+							switch u := tv.Type.Underlying().(type) {
+							case *types.Map, *types.Chan:
+								mutable = true
+							case *types.Pointer:
+								if _, isMap := u.Elem().Underlying().(*types.Map); isMap {
+									mutable = true
+								}
+							}
+							if strings.Contains(ts, "sync.") || strings.Contains(ts, "atomic.") || strings.Contains(strings.ToLower(ts), "cache") {
+								mutable = true
+							}
+							for _, nm := range f.Names {
+								if strings.Contains(strings.ToLower(nm.Name), "cache") || strings.Contains(strings.ToLower(nm.Name), "memo") {
+									mutable = true
+								}
+							}
+							if !mutable {
+								continue
+							}
+							for _, nm := range f.Names {
+								memFields = append(memFields, Site{r, 0, x.Name.Name + "." + nm.Name, ts})
+							}
+							if len(f.Names) == 0 {
+								memFields = append(memFields, Site{r, 0, x.Name.Name + ".(embedded)", ts})
+							}
+						}
+					}
+				}
+			}
+		}
+	}
+	for _, s := range [][]Site{pkgVars, memFields} {
+		sort.Slice(s, func(i, j int) bool {
+			if s[i].File != s[j].File {
+				return s[i].File < s[j].File
+			}
+			return s[i].Func < s[j].Func
+		})
+	}
+	facts["census_pkg_vars"] = pkgVars
+	facts["census_mem_fields"] = memFields
 }
 
 // bodyHasEffects: does the loop body do anything besides building a local collection?
